@@ -162,6 +162,20 @@ def stepB (id : String) (inp obs : List String) : String :=
     verdict id mi s (if hasStale progs then "K20f" else "-") ("T " ++ toString m.length ++ String.join (m.map encEv))
   | _, _ => s!"{id} bad-case"
 
+/-! stress cases: `<id> Z <G> <logged…> => R <G> (<n> (<start> <len>)…)…` -/
+def stepZ (id : String) (inp obs : List String) : String :=
+  let pIn : P (List Nat) := list nat
+  let pOut : P (List (List (Nat × Nat))) := do
+    lit "R"
+    list (list (do let a ← nat; let b ← nat; pure (a, b)))
+  match runP pIn inp, runP pOut obs with
+  | some logged, some runs =>
+    let m := LogBuf.stressExpected logged
+    let enc := toString m.length ++ String.join (m.map fun rs =>
+      " " ++ toString rs.length ++ String.join (rs.map fun r => s!" {r.1} {r.2}"))
+    verdict id (runs == m) (LogBuf.stressOK logged runs) "-" ("R " ++ enc)
+  | _, _ => s!"{id} bad-case"
+
 def step (line : String) : String :=
   match splitCase line with
   | none => "? bad-line"
@@ -169,6 +183,7 @@ def step (line : String) : String :=
     match inp with
     | "R" :: rest => stepR id rest obs
     | "B" :: rest => stepB id rest obs
+    | "Z" :: rest => stepZ id rest obs
     | _ => s!"{id} bad-case"
 
 end Rivaas.DriverC20
